@@ -228,11 +228,12 @@ def _route(route, sig, case):
         for code in ('BC8AE504', 'BC00E510', '1100E510', 'B700E5AA'):
             decode.parse(pelgen.encode_pel(pelgen.pel_from_spec({'creator': 'O', 'sections': [{'t': 'PS', 'ascii': code.ljust(32)}]})))
         return _route('pel', sig, case)
-    if route == 'pel':
+    if route in ('pel', 'pel-wc8'):
+        # (pel-wc8: the reference code declares eight valid words, 2..8 - the signature sits in words 6..8, all still valid)
         words = list(pelgen.SRC_DEFAULT_WORDS)
         words[4:7] = [int.from_bytes(sig[0:4], 'big'), int.from_bytes(sig[4:8], 'big'), int.from_bytes(sig[8:12], 'big')]
         payload = (2).to_bytes(4, 'big') + sig + sig
-        p = {'creator': 'O', 'sections': [{'t': 'PS', 'ascii': 'BD8DE510'.ljust(32), 'words': words},
+        p = {'creator': 'O', 'sections': [dict({'t': 'PS', 'ascii': 'BD8DE510'.ljust(32), 'words': words}, **({'wc': 8} if route == 'pel-wc8' else {})),
                                           {'t': 'UD', 'comp': 0xE500, 'sub': 1, 'ver': 1, 'payload': payload.hex()}]}
         r = decode.parse(pelgen.encode_pel(pelgen.pel_from_spec(p)))
         if r['kind'] != 'doc':
@@ -338,7 +339,7 @@ def _do(res, case, step=499):
     res.add(vs)
 
 
-ROUTES = ['parser-lower', 'parser-upper', 'src10', 'src20', 'ud0', 'ud1', 'ud2', 'ud3', 'pel', 'pel-after']
+ROUTES = ['parser-lower', 'parser-upper', 'src10', 'src20', 'ud0', 'ud1', 'ud2', 'ud3', 'pel', 'pel-after', 'pel-wc8']
 
 
 def run_chunk(chunk):
@@ -353,7 +354,7 @@ def run_chunk(chunk):
             for vec in quick_vectors():
                 sig = sig_bytes(vec).hex()
                 for route in ROUTES:
-                    if route in ('pel', 'ud0', 'ud3') and sum(1 for v in vec if v != vec[0]) > 1:
+                    if route in ('pel', 'pel-wc8', 'ud0', 'ud3') and sum(1 for v in vec if v != vec[0]) > 1:
                         continue
                     if route == 'pel-after' and (len(set(vec)) > 1 or chunk['cfg'] not in ('absent', 'full', 'nobit')):
                         continue
